@@ -166,6 +166,11 @@ class DirectoryComputation(MessagePassingComputation):
         self.logger.info('un-publication of %s ', msg.agent)
         self.directory.unregister_agent(msg.agent)
 
+    def _is_local_subscriber(self, subscriber: DiscoveryName) -> bool:
+        # True for the discovery computation of the agent hosting the directory
+        own = self.directory.discovery.discovery_computation
+        return own is not None and subscriber == own.name
+
     def _on_subscribe_agent(self, sender: DiscoveryName,
                             msg: SubscribeAgentMessage):
         if msg.subscribe:
@@ -186,7 +191,11 @@ class DirectoryComputation(MessagePassingComputation):
                     # The subscriber may still hold an outdated address for
                     # this agent (known before a previous un-subscription):
                     # tell it that the agent is currently not registered.
-                    self.notify_agent_unregistered(sender, msg.agent)
+                    # Not needed for the agent hosting the directory: its
+                    # view is updated directly by the directory, and a late
+                    # notification could wipe an agent registered meanwhile.
+                    if not self._is_local_subscriber(sender):
+                        self.notify_agent_unregistered(sender, msg.agent)
         else:
             self.logger.info('UnSubscribe for agent %s from %s',
                              msg.agent, sender)
@@ -224,8 +233,10 @@ class DirectoryComputation(MessagePassingComputation):
                 # The subscriber may still hold an outdated host for this
                 # computation (known before a previous un-subscription):
                 # tell it that the computation is currently not registered.
-                self.notify_computation_unregistered(
-                    sender, msg.computation, None)
+                # (not for the agent hosting the directory, see above)
+                if not self._is_local_subscriber(sender):
+                    self.notify_computation_unregistered(
+                        sender, msg.computation, None)
             except UnknownAgent:
                 self.logger.warning('Unknown agent %s on lookup for '
                                     'computation %s', agt, msg.computation)
